@@ -103,6 +103,12 @@ func (cm *Manager) setSectorRoots(id types.FileContractID, roots []types.Hash256
 	cm.sectorRoots[id] = append([]types.Hash256(nil), roots...)
 }
 
+func (cm *Manager) deleteSectorRoots(id types.FileContractID) {
+	cm.mu.Lock()
+	defer cm.mu.Unlock()
+	delete(cm.sectorRoots, id)
+}
+
 // Contracts returns a paginated list of contracts matching the filter and the
 // total number of contracts matching the filter.
 func (cm *Manager) Contracts(filter ContractFilter) ([]Contract, int, error) {
@@ -173,6 +179,9 @@ func (cm *Manager) RenewContract(renewal SignedRevision, existing SignedRevision
 		return err
 	}
 	cm.setSectorRoots(renewal.Revision.ParentID, existingRoots)
+	// the store moved the roots to the renewal and the existing contract is
+	// cleared: drop its roots from the cache as well
+	cm.deleteSectorRoots(existing.Revision.ParentID)
 	cm.log.Debug("contract renewed", zap.Stringer("renewalID", renewal.Revision.ParentID), zap.Stringer("existingID", existing.Revision.ParentID))
 	return nil
 }
